@@ -648,6 +648,9 @@ def c02():
     # a transient storage error in the flush that should store the entry, then a good flush / close: a fresh handle reads what was written
     ff = [gen.flush_fault_io_program(rng, "flush-fault-%d" % i, gen.K(["K1b", "K2", "K5"][i % 3]), CS[["K1b", "K2", "K5"][i % 3]]) for i in range(scale(24, 240))]
     res.append(("io-flush-fault", core.campaign("io-flush-fault", ff, wd)))
+    # volumes larger than 4 GiB: a file in the first clusters and files beyond the 4 GiB mark (device offsets need more than 32 bits)
+    lg = [gen.large_program(rng, "c02-large-%s-%s" % (k, h), k, h) for k in ("4g", "1t") for h in ("4g", "last", "before_last")]
+    res.append(("io-large", core.campaign("io-large", lg, wd)))
     # a root directory that ends inside a sector fills up next to a file in the first data clusters
     res.append(("io-root-tail", core.campaign("io-root-tail", [gen.root_tail_program(rng, "root-tail-%d" % i) for i in range(scale(3, 12))], wd)))
     # a device call of a growing write fails, the write is repeated, other files grow: no chain may lead into a free cluster
@@ -690,6 +693,8 @@ def c03():
     res.append(("top-clusters", core.campaign("top-clusters", top, wd)))
     af = [gen.append_fault_program(rng, "append-fault-%d" % i, gen.K(["K1b", "K2", "K5", "K3"][i % 4]), CS[["K1b", "K2", "K5", "K3"][i % 4]]) for i in range(scale(24, 240))]
     res.append(("append-fault", core.campaign("append-fault", af, wd)))
+    high = [gen.foreign_high_program(rng, "c03-high-%d" % i, rewrite=0.5) for i in range(scale(6, 60))]
+    res.append(("foreign-high", core.campaign("foreign-high", high, wd)))
     cf = [gen.clone_flush_program(rng, "clone-flush-%d" % i, gen.K(["K1b", "K2", "K5"][i % 3]), CS[["K1b", "K2", "K5"][i % 3]]) for i in range(scale(18, 180))]
     res.append(("clone-flush", core.campaign("clone-flush", cf, wd)))
     mc = mc_layer_b(wd, deep=True)
@@ -785,6 +790,9 @@ def c05():
     # a FAT32 tree that lives above cluster 65535: files emptied, removed, directories moved; statistics after each step
     high = [gen.foreign_high_program(rng, "c05-high-%d" % i) for i in range(half(6, 60))]
     res.append(("foreign-high", core.campaign("foreign-high", high, wd)))
+    # truncation at and around cluster boundaries: the clusters behind the cut come back (a chain longer than the size needs is space
+    # that was not given back: C03.chain_size counts here)
+    res.append(("io", core.campaign("io", fam_io("C05", ["K1b", "K2", "K5"], half(10, 100), 50, salt=3), wd)))
     # an unmount that fails (one device call, or every call from some point on), then the volume is mounted again
     uf = [gen.unmount_fault_program(rng, "unmount-fault-%d" % i, gen.K(["K5", "K5b", "K5", "K2"][i % 4]), CS[["K5", "K5b", "K5", "K2"][i % 4]]) for i in range(half(40, 400))]
     res.append(("unmount-fault", core.campaign("unmount-fault", uf, wd)))
@@ -793,7 +801,7 @@ def c05():
                 "table of the raw image and judges every NotEnoughSpace against the pre-state",
                 ASSUME_TRACE, extra_cov={"inductive_invariant": mc_fat_inductive(wd)},
                 # "removing or truncating gives back all of its clusters": a cluster that stays allocated without an owner is C05's too
-                extra_prefixes=("C00.", "C03.lost"))
+                extra_prefixes=("C00.", "C03.lost", "C03.chain_size"))
 
 
 def status_off(kname):
@@ -1270,6 +1278,10 @@ def c11():
     for i in range(scale(40, 400)):
         kname = ["K1b", "K2", "K5", "K3"][i % 4]
         progs.append(gen.append_fault_program(rng, "c11-append-fault-%d" % i, gen.K(kname), CS[kname]))
+    # volumes larger than 4 GiB (offsets beyond 32 bits): every write lands in its own cluster, none in the low ones
+    for k in ("4g", "1t"):
+        for h in ("4g", "last", "before_last", "unknown"):
+            progs.append(gen.large_program(rng, "c11-large-%s-%s" % (k, h), k, h))
     res = [("writes", core.campaign("writes", progs, wd, n_shards=14))]
     core.finish("C11", LEVEL, res, None, t0,
                 "every device write of namespace, file-I/O and fill histories on own and builder volumes embedded in a larger device (guard bytes after the "
@@ -1295,13 +1307,23 @@ def c20():
         vol, cs = gen.end_of_table_volume(rng, 32)
         progs.append(gen.fill_program(rng, "c20-eot-%d" % i, {"vol": vol}, cs, rounds=1, chunk_clusters=(1, 2, 3), use_dirs=False))
     res = [("large", core.campaign("large", progs, wd, n_shards=14))]
+    # such volumes come into being by formatting devices of that size (the sector count taken from the device, or given): up to 2^32-1 sectors
+    freqs = []
+    for i, sectors in enumerate([(1 << 32) - 1, (1 << 32) - 2, (1 << 31) + 1, 1 << 31, 9000000, (1 << 32) - 1, 0x0FFFFFF5 + 70000]):
+        for j, kw in enumerate(({"from_device": True}, {})):
+            bps = 4096 if i == 6 else 512
+            r = dict({"id": "lf-%d-%d" % (i, j), "sectors": sectors, "bps": bps}, **kw)
+            if i == 5:
+                r["fats"] = 1
+            freqs.append(r)
+    res.append(("large-format", core.campaign("large-format", freqs, wd, spec="TraceFormat", mode="formats", n_shards=2)))
     core.finish("C20", LEVEL, res, None, t0,
                 "sparse builder volumes of 4 GiB, 1 TiB+, 2 TiB-512 B (512-byte sectors) and the FAT32 cluster limit with 4096-byte sectors, next-free hint "
                 "at / just before / just past the last cluster, unknown, and at the clusters around the 2 GiB, 4 GiB and 1 TiB byte marks; short histories "
                 "(create, write 3 clusters, flush, extents, read back, truncate, append to a foreign file, remove, statistics, remount) judged by the same "
                 "model and raw-image oracles; contents compared per half-cluster digest; no device access at or beyond the declared end",
                 ASSUME_TRACE + ["64-bit offset arithmetic of the decoder/region mapper (u64 in the harness) is correct"],
-                extra_prefixes=("C00.", "C02.", "C04.", "C05.nospace_legit", "C05.stats", "C05.fsinfo", "C11.beyond", "C11.region", "C03."))
+                extra_prefixes=("C00.", "C02.", "C04.", "C05.nospace_legit", "C05.stats", "C05.fsinfo", "C11.beyond", "C11.region", "C03.", "C06."))
 
 
 def c19():
